@@ -49,8 +49,35 @@ FAULTS = [
 ]
 
 
+def catalogue_faults():
+    """the last mandatory argument of every catalogue macro left open at the
+    end of the text"""
+    macs, envs = universe.catalogue()
+    out = []
+    for name, (args, dcls) in macs:
+        if 'A' not in args or name in universe.CAT_SKIP or name in (
+                '\\begin', '\\end', '\\verb', '\\item', '\\LTinput', '\\usepackage',
+                '\\documentclass'):
+            continue
+        call = name
+        last = max(i for i, c in enumerate(args) if c == 'A')
+        for i, c in enumerate(args[:last]):
+            if c == 'A':
+                call += '{ma}' if name not in ('\\foreignlanguage',) else '{german}'
+            elif c == 'O':
+                call += ''
+        out.append(('open-arg:' + name, 'Alpha ' + call + '@{Beta gamma', None, dcls))
+    return out
+
+
 def fault_cases(rng, n):
     out = []
+    for name, tmpl, keep, dcls in catalogue_faults():
+        off = tmpl.index('@')
+        text = tmpl[:off] + tmpl[off + 1:]
+        out.append((parsecase.T2T(text, lang='en', pack='*', dcls=dcls,
+                                  files=dict(universe.FILES)),
+                    {'fault': name, 'offset': off, 'keep': keep, 'pre': ''}, 'fault'))
     for k in range(n):
         name, tmpl, keep = FAULTS[k % len(FAULTS)]
         pre = ''
@@ -104,12 +131,15 @@ def oracle(c, meta, kind, im):
         if full not in txt and not txt.endswith(' ' + MARK) \
                 and not txt.startswith(MARK):
             return 'fault %s: incomplete error mark in %r' % (meta['fault'], txt[-80:])
+        places = []
         for lang, t, p in universe.texts_of(im):
-            k = t.find(MARK)
-            if k >= 0 and p[k] != off + 1:
-                return ('fault %s: first character of the mark maps to %d, the '
-                        'problem is at %d' % (meta['fault'], p[k], off + 1))
-        if meta['keep'] not in txt:
+            places += [p[m.start()] for m in re.finditer(re.escape(MARK), t)]
+        # (a second problem of the same construct, e.g. an unknown glossary
+        # label, has a mark of its own)
+        if places and off + 1 not in places:
+            return ('fault %s: first character of the mark maps to %r, the '
+                    'problem is at %d' % (meta['fault'], places, off + 1))
+        if meta['keep'] is not None and meta['keep'] not in txt:
             return ('fault %s: text behind the faulty construct is lost: %r not in %r'
                     % (meta['fault'], meta['keep'], txt[-120:]))
     return None
